@@ -302,3 +302,47 @@ def writers(cx):
             cx.bad(cx.site_key(c, "abort"), "unrecognised abort of a leadership transfer", c)
         for k in ("reset", "timeout", "removed"):
             cx.check(k in kinds, "abort:" + k, "a pending transfer is abandoned on %s" % {"reset": "every role/term reset", "timeout": "the election timeout", "removed": "removal of the target from the voters"}[k])
+
+
+@obligation("SNAP.tracker_clear", ["C15", "C20", "C09"], floor=2, kind="exhaustiveness over ADT fields",
+            why="a snapshot install rebuilds the configuration from scratch; a field surviving the clear makes the rebuild fail its invariant check (fatal) or yields a configuration that is not the snapshot's")
+def tracker_clear(cx):
+    cf = cx.fn("tracker::Configuration::clear")
+    ad = cx.facts.adt("raft::tracker::Configuration")
+    cx.need(ad, "struct tracker::Configuration")
+    fields = [f["name"] for f in ad["variants"][0]["fields"]]
+    a = cx.prog.A(cf)
+    touched = set()
+    for s, fk, pl in cx.prog.direct_writes(cf.key):
+        if fk == "Configuration.*":
+            touched |= set(fields)
+        elif fk.startswith("Configuration."):
+            touched.add(fk.split(".")[1])
+    for sp, s in cx.prog.calls_out[cf.key]:
+        if s.kind == "call" and sp.rsplit("::", 1)[-1] in ("clear", "drain", "take"):
+            a0 = call_args(cx, s)[0]
+            for f in fields:
+                if is_f(a0, "Configuration." + f) or contains(fld("Configuration." + f), a0):
+                    touched.add(f)
+    missing = [f for f in fields if f not in touched]
+    cx.check(not missing, "Configuration::clear", "Configuration::clear resets every field of the configuration (not reset: %s)" % missing)
+    # written values for scalar fields are the defaults
+    for s, fk, pl in cx.prog.direct_writes(cf.key):
+        if fk == "Configuration.auto_leave" and "stmt" in s.data:
+            v = a.expr_rvalue(s.data["stmt"]["rv"], s.at)
+            cx.check(v == ("bool", False), "Configuration::clear:auto_leave", "auto_leave is reset to false", s)
+    pc = cx.fn("ProgressTracker::clear")
+    cleared = set()
+    for sp, s in cx.prog.calls_out[pc.key]:
+        if s.kind == "call" and sp.rsplit("::", 1)[-1] == "clear":
+            a0 = call_args(cx, s)[0]
+            for f in ("progress", "conf", "votes"):
+                if is_f(a0, "ProgressTracker." + f):
+                    cleared.add(f)
+    cx.check(cleared == {"progress", "conf", "votes"}, "ProgressTracker::clear", "ProgressTracker::clear empties the progress map, the configuration and the votes (cleared: %s)" % sorted(cleared))
+    c = install_fn(cx)
+    g = cx.pg(c.fn)
+    clr = call_blocks(c.fn, "ProgressTracker::clear")
+    rst = [s for sp, s in cx.prog.calls_out[c.fn.key] if s.kind == "call" and sp.endswith("confchange::restore::restore")]
+    ok = bool(clr) and bool(rst) and all(g.dominated_by_block(s.at, lambda b: b in clr) for s in rst)
+    cx.check(ok, "install:clear-before-restore", "the snapshot install clears the tracker before rebuilding the configuration from the snapshot")
